@@ -92,6 +92,7 @@ var trTargets = []trTarget{
 	{Pkg: evm + "x/feemarket/types", Recv: "Params", Name: "Validate"},
 	{Pkg: evm + "indexer", Name: "TxIndexKey"},
 	{Pkg: evm + "indexer", Name: "parseBlockNumberFromKey"},
+	{Pkg: evm + "indexer", Name: "isEthTx"},
 	{Pkg: evm + "app/antedl/evmlane", Recv: "ELValidateBasicEoaDecorator", Name: "AnteHandle", EraseObj: true},
 	{Pkg: evm + "app/antedl/evmlane", Recv: "ELSetupExecutionDecorator", Name: "AnteHandle", EraseObj: true},
 	{Pkg: evm + "app/antedl/evmlane", Recv: "ELEmitEventDecorator", Name: "AnteHandle", EraseObj: true},
